@@ -155,6 +155,7 @@ thread_local! {
     static PROBES: Cell<u64> = const { Cell::new(0) };
     static BANDS: Cell<u64> = const { Cell::new(0) };
     static MAX_Z: Cell<u64> = const { Cell::new(0) };
+    static RETESTS: Cell<u64> = const { Cell::new(0) };
 }
 fn bump(k: &'static std::thread::LocalKey<Cell<u64>>, by: u64) {
     k.with(|c| c.set(c.get() + by));
@@ -269,50 +270,77 @@ fn run_filter<F>(
     // non-members
     if s.probes > 0 && n >= 1000 {
         let big_n = s.probes;
-        let mut fp = 0u64;
-        let mut disagree = 0u64;
-        let mut first_dis = String::new();
-        for j in 0..big_n {
-            let x = contains(&f, n + j);
-            fp += x as u64;
-            // the two read paths must give the same answer on any key (sampled: it doubles the cost)
-            if use_unal && j % 8 == 0 && unal(&f, n + j) != x {
-                if disagree == 0 {
-                    first_dis = format!("contains({}) = {} but contains_unaligned = {}", show(n + j), x, !x);
-                }
-                disagree += 1;
-            }
-        }
-        if disagree > 0 {
-            c.fail("contains_unaligned", "mismatch", "", &format!("contains and contains_unaligned disagree on {} probes: {}; {}", disagree, first_dis, input));
-        }
-        bump(&PROBES, big_n as u64);
-        bump(&BANDS, 1);
-        c.tick(1);
         let p = (0.5f64).powi(b as i32);
         let mean = big_n as f64 * p;
         let sd = (big_n as f64 * p * (1.0 - p)).sqrt();
         let band = 6.0 * sd + 3.0;
-        let dev = fp as f64 - mean;
-        if sd > 0.0 {
-            let z = (dev.abs() / sd * 100.0) as u64;
-            MAX_Z.with(|m| m.set(m.get().max(z)));
+        // two disjoint probe sets: the second one is only drawn to confirm a count outside the band
+        let mut counts: Vec<u64> = Vec::new();
+        let mut verdict = "";
+        for round in 0..2usize {
+            let mut fp = 0u64;
+            let mut disagree = 0u64;
+            let mut first_dis = String::new();
+            for j in round * big_n..(round + 1) * big_n {
+                let x = contains(&f, n + j);
+                fp += x as u64;
+                // the two read paths must give the same answer on any key (sampled: it doubles the cost)
+                if use_unal && j % 8 == 0 && unal(&f, n + j) != x {
+                    if disagree == 0 {
+                        first_dis = format!("contains({}) = {} but contains_unaligned = {}", show(n + j), x, !x);
+                    }
+                    disagree += 1;
+                }
+            }
+            if disagree > 0 {
+                c.fail("contains_unaligned", "mismatch", "", &format!("contains and contains_unaligned disagree on {} probes: {}; {}", disagree, first_dis, input));
+            }
+            bump(&PROBES, big_n as u64);
+            counts.push(fp);
+            let dev = fp as f64 - mean;
+            if round == 0 && mean >= 10.0 {
+                let z = (dev.abs() / sd * 100.0) as u64;
+                MAX_Z.with(|m| m.set(m.get().max(z)));
+            }
+            let too_many = dev > band;
+            let too_few = b <= 16 && -dev > band;
+            let v = if too_many {
+                "fp-rate-high"
+            } else if too_few {
+                "fp-rate-low"
+            } else {
+                ""
+            };
+            if v.is_empty() {
+                // inside the band (a first count outside it was a fluctuation: not confirmed)
+                verdict = "";
+                break;
+            }
+            if round == 1 && v != verdict {
+                verdict = "";
+                break;
+            }
+            verdict = v;
+            if round == 0 {
+                bump(&RETESTS, 1);
+            }
         }
-        let too_many = dev > band;
-        let too_few = b <= 16 && -dev > band;
-        if too_many || too_few {
+        bump(&BANDS, 1);
+        c.tick(1);
+        if !verdict.is_empty() {
             c.fail(
                 "contains",
-                if too_many { "fp-rate-high" } else { "fp-rate-low" },
+                verdict,
                 "",
                 &format!(
-                    "{} of {} non-member probes are reported present; expected {:.1} for b={} (acceptance band +-{:.1}, i.e. 6 sigma + 3; observed rate 2^{:.2}); {}; {}",
-                    fp,
+                    "{} and {} of 2 x {} disjoint non-member probes are reported present; expected {:.1} each for b={} (acceptance band +-{:.1}, i.e. 6 sigma + 3, exceeded on the same side by both samples; observed rate 2^{:.2}); {}; {}",
+                    counts[0],
+                    counts[1],
                     big_n,
                     mean,
                     b,
                     band,
-                    (fp.max(1) as f64 / big_n as f64).log2(),
+                    ((counts[0] + counts[1]).max(1) as f64 / (2 * big_n) as f64).log2(),
                     input,
                     progress()
                 ),
@@ -536,7 +564,7 @@ fn main() {
         let v = r.random_range(0..VARIANTS.len());
         let var = &VARIANTS[v];
         let b = if var.boxed { var.bits } else { r.random_range(1..=var.bits) };
-        let rate = r.random_range(0..3) == 0;
+        let rate = r.random_range(0..6) == 0;
         let n = if rate {
             pick(&mut r, &[1000usize, 1500, 2048, 5000, 10_000, 30_000]).min(if debug { 10_000 } else { 30_000 })
         } else {
@@ -555,15 +583,16 @@ fn main() {
     }
 
     let counters = format!(
-        "{{\"builds_ok\":{},\"slow_convergence_builds_over_64_attempts\":{},\"abandoned_after_a_no_progress_violation\":{},\"members_checked\":{},\"non_member_probes\":{},\"rate_bands_judged\":{}}}",
+        "{{\"builds_ok\":{},\"slow_convergence_builds_over_64_attempts\":{},\"abandoned_after_a_no_progress_violation\":{},\"members_checked\":{},\"non_member_probes\":{},\"rate_bands_judged\":{},\"first_samples_outside_the_band_retested\":{}}}",
         BUILDS_OK.with(|c| c.get()),
         BUILDS_SLOW.with(|c| c.get()),
         ABANDONED.with(|c| c.get()),
         MEMBERS.with(|c| c.get()),
         PROBES.with(|c| c.get()),
-        BANDS.with(|c| c.get())
+        BANDS.with(|c| c.get()),
+        RETESTS.with(|c| c.get())
     );
     ctx.note("c08_counters", &counters);
-    ctx.note("c08_largest_deviation_in_sigma_x100", &format!("\"{}\"", MAX_Z.with(|c| c.get())));
+    ctx.note("c08_largest_deviation_of_a_first_sample_in_sigma_x100_(bands_with_Np>=10)", &format!("\"{}\"", MAX_Z.with(|c| c.get())));
     ctx.finish();
 }
